@@ -78,7 +78,7 @@ extern "C" void h_edit(void) {
     Map expect = before;
 #if EDIT == 0
     uint32_t word; memcpy(&word, &expect.tiles[idx], 4); word = (word & ~31u) | arg; memcpy(&expect.tiles[idx], &word, 4);
-    vf_assert((int)m2.GetCellType(x, y) == (int)(arg < 16 ? arg : arg - 32) || (unsigned)m2.GetCellType(x, y) == arg, "cell type reads back");
+    vf_assert((unsigned)m2.GetCellType(x, y) == arg, "cell type reads back");
 #elif EDIT == 1
     uint32_t word; memcpy(&word, &expect.tiles[idx], 4); word = (word & ~(1u << 28)) | ((arg & 1) << 28); memcpy(&expect.tiles[idx], &word, 4);
     vf_assert(m2.GetLavaPossible(x, y) == (bool)(arg & 1), "lava-possible reads back");
